@@ -55,6 +55,9 @@ func orderPrograms() []string {
 		"t(1, [math.sqrt(2), math.floor(-1.5), math.pow(2, 0.5), math.pi, math.atan2(1, 2), math.gamma(5.5)])\nt(2, 1e300 * 1e10)\nt(3, 0.1 + 0.2)\nt(4, '%g %e %f' % (1.5, 1e10, 0.25))\n",
 		// print and string formatting of containers
 		fmt.Sprintf("print({%s: [1, (2,)], 'k': {%s: set([%s, 'e'])}})\nprint('%%s %%r' %% ({%s: 1}, set([%s])))\n", q(L0), q(L1), q(L2), q(L0), q(L1)),
+		// compiled code shared between threads: functions of a loaded module and of the program itself
+		"load('lib', 'inc', 'tot', 'apply', 'add5', 'mk')\nt(1, tot([1, 2, 3]))\nt(2, apply(inc, 4))\nt(3, [inc(i) for i in range(3)])\nt(4, add5(1) + mk(2)(3))\n",
+		"def f(x):\n    return g(x) + 1\ndef g(x):\n    return x * 2\nt(1, [f(i) for i in range(3)])\nt(2, sorted([3, 1, 2], key = f))\nt(3, f(g(f(1))))\n",
 		// functions as keys, hash of tuples
 		fmt.Sprintf("def f(): pass\ndef g(): pass\nd = {f: 1, g: 2, (%s, 1): 3, (1, %s): 4, len: 5}\nt(1, [v for v in d.values()])\nt(2, hash(%s) == hash(%s))\n", q(L0), q(L0), q(L1), q(L1)),
 	}
@@ -76,7 +79,11 @@ func corpusPrograms(thorough bool) []string {
 			i := 0
 			pf.Level(l, func(p prog.Program) bool {
 				i++
-				if i%stride[pf.Name] == 0 {
+				sd := stride[pf.Name]
+				if sd == 0 {
+					sd = 17 // profiles added later
+				}
+				if i%sd == 0 {
 					out = append(out, prog.Render(p.Instantiate()))
 				}
 				return true
